@@ -943,6 +943,8 @@ func run(dir string, seed uint64, tier string) error {
 		"P:a\nF:d\nR:../d2/x\n\n", "P:a\nF:\nR:x\n\n", "P:a\nF:.\nR:x\n\n", "P:a\nF:/\nR:x\n\n", "P:a\nF:/\nR:..\n\n", "P:a\nF:d\nR:.\n\n", "P:a\nF:d\nR:..\n\n",
 		"P:a\nF:d/e\nR:../x\n\n", "P:a\nF:..\nR:..\n\n", "P:a\nF:..\nR:x\n\n", "P:a\nF:../a\nR:../b\n\n", "P:a\nF:\nR:/x\n\n", "P:a\nF:\nR:\n\n", "P:a\nF:d//e/\nR:x//y\n\n",
 		"P:a\nF:/r\nR:../r2/x\n\n", "P:a\nF:d\nR:..x\n\n", "P:a\nF:d\nR:../d\n\n", "P:a\nF:d/..\nR:x\n\n", "P:a\nF:d/..\nR:../x\n\n",
+		// the reader's state does not survive the blank line: a second record's R:/M:/a: lines see no directory / file of the first
+		"P:a\nF:d\nR:f\n\nP:b\nR:g\n\n", "P:a\nF:d\n\nP:b\nM:1:2:0700\n\n", "P:a\nF:d\nR:f\n\nP:b\na:1:2:0600\n\n", "P:a\nF:d\nR:f\n\n\nP:b\nR:../x\n\n", "P:a\nV:1\nF:d\n\nV:2\nR:g\n\nP:c\nR:h\n\n",
 		// letters outside the switch are ignored; a repeated field overwrites, except an un-prefixed C: after a prefixed one
 		"P:a\nq:zzz\nV:1\n\n", "P:a\ns:1\nf:x\nz:y\n\n", "P:a\nZ:Q1xx\nX:1\n\n", "P:a\nV:1\nV:2\n\n", "P:a\nt:5\nt:7\n\n", "P:a\nD:x y\nD:\n\n", "P:a\nC:Q1AQID\nC:md5\n\n",
 		"P:a\nC:md5\nC:Q1AQID\n\n", "P:a\nr:x\nr:y z\n\n", "P:a\nF:d\nF:e\nM:1:2:0700\nR:f\nR:g\na:3:4:0600\n\n", "P:a\nS:1\nS:x\n\n", "P:a\nP:\n\n", "P:a\n?:x\n\n", "P:a\n :x\n\n"} {
